@@ -32,6 +32,12 @@ impl Tier {
     }
 }
 
+/// build configuration under test other than the default one (VERIF_VARIANT; "b64" = the library's
+/// `serialize_bytes_as_base64_string` feature); evidence and replay files carry the name
+pub fn variant() -> Option<String> {
+    std::env::var("VERIF_VARIANT").ok().filter(|s| !s.is_empty())
+}
+
 pub fn root() -> PathBuf {
     PathBuf::from(std::env::var("VERIF_ROOT").unwrap_or_else(|_| "/verif".into()))
 }
@@ -265,8 +271,11 @@ impl Ctx {
         }
         let dir = root().join("replays");
         let _ = std::fs::create_dir_all(&dir);
-        let path = dir.join(format!("{}-{}-seed{}.json", self.id, stage, self.seed));
-        let body = json!({"property": self.id, "stage": stage, "seed": self.seed, "message": msg, "case": case});
+        let path = dir.join(format!("{}-{}{}-seed{}.json", self.id, variant().map(|v| format!("{v}@")).unwrap_or_default(), stage, self.seed));
+        let mut body = json!({"property": self.id, "stage": stage, "seed": self.seed, "message": msg, "case": case});
+        if let Some(v) = variant() {
+            body["variant"] = json!(v);
+        }
         let _ = std::fs::write(&path, serde_json::to_string_pretty(&body).unwrap());
         println!("VIOLATION property={} replay={}", self.id, path.display());
         println!("  stage={} {}", stage, msg.lines().next().unwrap_or(""));
@@ -329,7 +338,10 @@ impl Ctx {
                 let _ = std::fs::write(dir.join(format!("{}.shard{k}.keys", self.id)), keys);
                 dir.join(format!("{}.shard{k}.json", self.id))
             }
-            None => dir.join(format!("{}.json", self.id)),
+            None => match variant() {
+                Some(v) => dir.join(format!("{}.variant-{v}.json", self.id)),
+                None => dir.join(format!("{}.json", self.id)),
+            },
         };
         if let Err(e) = std::fs::write(&path, serde_json::to_string_pretty(&ev).unwrap()) {
             eprintln!("cannot write evidence {}: {e}", path.display());
